@@ -92,6 +92,12 @@ STEPD_CFGS = [
     {"window_size": n, "alpha_warning": w, "alpha_drift": d}
     for n in (1, 2, 3, 4)
     for (w, d) in ((0.05, 0.003), (0.3, 0.1), (0.5, 0.49))
+] + [
+    # levels above 1/2 (legal; the repository's tests use 0.6 / 0.7): with the continuity correction a tie or a small
+    # *increase* in accuracy has a p-value just above 1/2, so only the explicit "accuracy decreased" guard keeps it silent
+    {"window_size": n, "alpha_warning": w, "alpha_drift": d}
+    for n in (2, 4)
+    for (w, d) in ((0.7, 0.6), (0.95, 0.55))
 ]
 
 DEPTH = {
@@ -115,7 +121,8 @@ def _long_default(kind, L):
 LONG_CFGS = {
     "DDM": [{"n_threshold": 30, "warning_scale": 2, "drift_scale": 3}, {"n_threshold": 20, "warning_scale": 1, "drift_scale": 2}],
     "EDDM": [{"n_threshold": 30, "warning_thresh": 0.95, "drift_thresh": 0.9}, {"n_threshold": 10, "warning_thresh": 0.95, "drift_thresh": 0.9}],
-    "STEPD": [{"window_size": 30, "alpha_warning": 0.05, "alpha_drift": 0.003}, {"window_size": 12, "alpha_warning": 0.1, "alpha_drift": 0.01}],
+    "STEPD": [{"window_size": 30, "alpha_warning": 0.05, "alpha_drift": 0.003}, {"window_size": 12, "alpha_warning": 0.1, "alpha_drift": 0.01},
+              {"window_size": 30, "alpha_warning": 0.6, "alpha_drift": 0.55}],
 }
 
 
